@@ -3,6 +3,7 @@
  *
  *   I <table list>                 dump after lou_getTable
  *   J <table list> | rule ; rule   lou_compileString each rule first (run-time additions), then dump
+ *   M <n>                          from now on move the image on every n-th arena allocation (hook; 0 = off)
  *
  * Output (one line, fields separated by " ; "):
  *   IMG ok=<0|1> used=<bytes of ruleArea in use> unit=8 rulefix=<sizeof rule without chars> charsize=<sizeof char record>
@@ -14,6 +15,7 @@
  *   FC <char> <bucket> r r ...     a character record: its hash bucket and its otherRules chain (off:idx:op:len)
  *   BB / BC                        same for the backward buckets / cell records
  *   PF <n> r r ...  PB <n> ...     pass rule chains (off:idx:op:len)
+ *   RU off op charslen dotslen nofor noback    every rule object created by addRule (rule hook), read back from the image
  */
 #include "tbl.h"
 
@@ -27,6 +29,20 @@ arena_cb(int kind, unsigned int offset, int size, const void *table) {
 		allocs[nalloc].off = offset;
 		allocs[nalloc].size = size;
 		nalloc++;
+	}
+}
+
+#define MAXR (1 << 19)
+static struct { unsigned off; int nofor, noback; } rules[MAXR];
+static int nrules = 0;
+static void
+rule_cb(unsigned int offset, int nofor, int noback, const void *table) {
+	(void)table;
+	if (nrules < MAXR) {
+		rules[nrules].off = offset;
+		rules[nrules].nofor = nofor;
+		rules[nrules].noback = noback;
+		nrules++;
 	}
 }
 
@@ -163,7 +179,17 @@ dump(const char *tl, int ok) {
 		if (T->forPassRules[k]) dump_chain("PF", k, -1, T->forPassRules[k], 1, 0);
 		if (T->backPassRules[k]) dump_chain("PB", k, -1, T->backPassRules[k], 0, 0);
 	}
-	/* every rule reachable through the chains is also a reference */
+	/* every rule object that addRule created, as it is in the image now */
+	for (k = 0; k < nrules; k++) {
+		if (!valid_off(rules[k].off)) {
+			printf(" ; RU %u -1 0 0 %d %d", rules[k].off, rules[k].nofor, rules[k].noback);
+			continue;
+		}
+		{
+			const TranslationTableRule *r = (const TranslationTableRule *)&T->ruleArea[rules[k].off];
+			printf(" ; RU %u %d %d %d %d %d", rules[k].off, (int)r->opcode, r->charslen, r->dotslen, rules[k].nofor, rules[k].noback);
+		}
+	}
 	printf("\n");
 }
 
@@ -171,12 +197,18 @@ int
 main(void) {
 	lou_registerLogCallback(h_quietlog);
 	_lou_verif_arena_cb = arena_cb;
+	_lou_verif_rule_cb = rule_cb;
 	while (fgets(h_line, H_LINE, stdin)) {
 		size_t L = strlen(h_line);
 		while (L && (h_line[L - 1] == '\n' || h_line[L - 1] == '\r')) h_line[--L] = 0;
+		if (h_line[0] == 'M') { /* M <n>: move the image on every n-th arena allocation (0 = off) */
+			_lou_verif_arena_move = atoi(h_line + 1);
+			continue;
+		}
 		if (h_line[0] == 'I') {
 			lou_free();
 			nalloc = 0;
+			nrules = 0;
 			dump(h_line + 2, 1);
 		} else if (h_line[0] == 'J') {
 			char *bar = strchr(h_line, '|');
@@ -190,6 +222,7 @@ main(void) {
 			}
 			lou_free();
 			nalloc = 0;
+			nrules = 0;
 			for (rule = strtok_r(bar + 1, ";", &save); rule; rule = strtok_r(NULL, ";", &save)) {
 				while (*rule == ' ') rule++;
 				if (*rule) ok &= lou_compileString(tl, rule);
